@@ -13,6 +13,9 @@ from . import checks as C
 def cmd_check(prop, tier, seed, runs=None):
     if prop in C.SIM_CHECKS:
         return C.run_sim_check(prop, tier, seed, runs_override=runs)
+    if prop == 'C20':
+        from detcompile import check as D
+        return D.run(prop, tier, seed)
     raise K.HarnessError('no check registered for ' + prop)
 
 
